@@ -160,6 +160,8 @@ class ConcatenatedLazyIndexer(LazyIndexer):
                                                            keep_tail)].reshape(tuple([-1] + shape_tails)))
                 out_data = np.concatenate(chunks)
             else:
+                if np.any(keep_head < 0):
+                    raise TypeError('ConcatenatedLazyIndexer cannot handle negative advanced integer indices')
                 # Form sequence of relevant indexer indices and local data indices with indexer offsets removed
                 indexers = find_indexer(keep_head)
                 local_indices = keep_head - indexer_starts[indexers]
